@@ -6,13 +6,6 @@ import (
 	"go/types"
 )
 
-func (fx *FuncCtx) initHeap(st *State)                  {}
-func (fx *FuncCtx) copyHeapForPost(pst, rst *State)     {}
-func (x *Exec) havocHeapLoop(ls *loopSpec, head *State) {}
-
-func (x *Exec) heapWrite(r VRef, field string, v Val, st *State, n ast.Node) {
-	unsupp(n.Pos(), x.fx.prog.fset, "heap write is outside the modelled subset")
-}
 func (x *Exec) indexAssign(l *ast.IndexExpr, v Val, st *State) {
 	e := x.ev(st)
 	base := e.ev(l.X)
@@ -35,15 +28,11 @@ func (x *Exec) indexAssign(l *ast.IndexExpr, v Val, st *State) {
 	case VHeapMap:
 		x.heapMapStore(l, b, v, st)
 		return
+	case VMapRef:
+		x.mapRefStore(l, b, v, st)
+		return
 	}
 	unsupp(l.Pos(), x.fx.prog.fset, "indexed assignment into %T is outside the modelled subset", base)
-}
-
-func (x *Exec) heapMapStore(l *ast.IndexExpr, m VHeapMap, v Val, st *State) {
-	unsupp(l.Pos(), x.fx.prog.fset, "map store is outside the modelled subset")
-}
-func (x *Exec) starAssign(l *ast.StarExpr, v Val, st *State) {
-	unsupp(l.Pos(), x.fx.prog.fset, "assignment through a pointer is outside the modelled subset")
 }
 
 // rangeString models "for _, r := range s": iteration over the code points utf8dec(s) (invalid
